@@ -275,15 +275,33 @@ func (e *env) reusedSlice(ptrs bool, byPayload map[string]*rec) {
 	}
 }
 
-// reuseRound runs the reused-destination reads of a database.
+// reuseRound runs the reused-destination reads of a database: the Model-bound map always, the other
+// five in turn (each in every second database; the turn depends on case and back-fill mode only).
 func (e *env) reuseRound(byPayload map[string]*rec) {
 	e.current = "reused-destination"
+	turn := e.c.Case
+	for i, o := range opts {
+		if o.name == e.opt {
+			turn += i
+		}
+	}
+	on := func(i int) bool { return (turn+i)%2 == 0 }
 	if !e.modelMapBroken {
 		e.reusedMapTake("model")
 	}
-	e.reusedMapTake("table")
-	e.reusedStruct()
-	e.scanRowsLoop("map", byPayload)
-	e.scanRowsLoop("struct", byPayload)
-	e.reusedSlice(e.readRot%2 == 0, byPayload)
+	if on(0) {
+		e.reusedMapTake("table")
+	}
+	if on(1) {
+		e.reusedStruct()
+	}
+	if on(0) {
+		e.scanRowsLoop("map", byPayload)
+	}
+	if on(1) {
+		e.scanRowsLoop("struct", byPayload)
+	}
+	if on(turn / 2) {
+		e.reusedSlice(e.readRot%2 == 0, byPayload)
+	}
 }
